@@ -669,10 +669,23 @@ class _Canon(ast.NodeTransformer):
         defs = self.rd.defs(node.id, self.at)
         if len(defs) == 1:
             d = next(iter(defs))
+            if d.kind == "unpack" and d.node is not None and isinstance(d.index, tuple) and len(d.index) == 1 and isinstance(d.stmt, (ast.Assign, ast.AnnAssign)) and not any(isinstance(x, ast.Name) and x.id == node.id for x in ast.walk(d.node)):
+                # a, b = V   ->   a is V[0], b is V[1]
+                import copy as _copy
+
+                sc = _Canon(self.rd, d.stmt, self.params, self.depth + 1)
+                sc.helpers = getattr(self, "helpers", None)
+                base = sc.visit(_copy.deepcopy(d.node))
+                i0 = d.index[0]
+                if isinstance(base, (ast.Tuple, ast.List)) and i0 < len(base.elts):
+                    return base.elts[i0]
+                return ast.Subscript(value=base, slice=ast.Constant(value=i0), ctx=ast.Load())
             if d.kind == "assign" and d.node is not None and not any(isinstance(x, ast.Name) and x.id == node.id for x in ast.walk(d.node)):
                 import copy as _copy
 
-                sub = _Canon(self.rd, d.stmt, self.params, self.depth + 1).visit(_copy.deepcopy(d.node))
+                sc = _Canon(self.rd, d.stmt, self.params, self.depth + 1)
+                sc.helpers = getattr(self, "helpers", None)
+                sub = sc.visit(_copy.deepcopy(d.node))
                 return sub
         return node
 
@@ -686,7 +699,41 @@ class _Canon(ast.NodeTransformer):
         return node
 
     def visit_Call(self, node):
+        orig_attr = node.func.attr if isinstance(node.func, ast.Attribute) else None
         self.generic_visit(node)
+        # a call of a trivial helper (body = one return expression) is replaced by that expression: extracting an
+        # expression into a private method / nested function does not change what is computed
+        hl = getattr(self, "helpers", None)
+        if hl is not None and self.depth <= 4:
+            target = None
+            f = node.func
+            if isinstance(f, ast.Attribute) and isinstance(f.value, ast.Name) and f.value.id in ("self", "cls"):
+                target = hl.get(("m", orig_attr)) or hl.get(("m", f.attr))
+                skip = 1
+            elif isinstance(f, ast.Name):
+                target = hl.get(("f", f.id))
+                skip = 0
+            if target is not None:
+                body = [st for st in target.body if not (isinstance(st, ast.Expr) and isinstance(st.value, ast.Constant))]
+                decos = [ast.unparse(d) for d in target.decorator_list]
+                ps = [a.arg for a in target.args.args]
+                if isinstance(f, ast.Attribute) and "staticmethod" not in decos and ps:
+                    ps = ps[1:]
+                if len(body) == 1 and isinstance(body[0], ast.Return) and body[0].value is not None and not node.keywords and len(node.args) == len(ps) and not target.args.vararg and not target.args.kwarg:
+                    import copy as _copy
+
+                    bind = dict(zip(ps, node.args))
+
+                    class _Sub(ast.NodeTransformer):
+                        def visit_Name(self, n):
+                            if isinstance(n.ctx, ast.Load) and n.id in bind:
+                                return _copy.deepcopy(bind[n.id])
+                            return n
+
+                    expr = _Sub().visit(_copy.deepcopy(body[0].value))
+                    sub = _Canon(None, None, self.params, self.depth + 1)
+                    sub.helpers = hl
+                    return sub.visit(expr)
         return node
 
     def visit_Compare(self, node):
@@ -698,14 +745,37 @@ class _Canon(ast.NodeTransformer):
         return node
 
 
-def canon(expr, rd=None, at=None, params=()):
+def helper_table(cls_info=None, mod=None, fn=None, repo=None):
+    """functions a call inside `fn` may denote as a *local helper*: methods of the class (through its ancestors),
+    module-level functions, functions nested in fn"""
+    out = {}
+    if mod is not None:
+        for n, f in mod.functions.items():
+            out[("f", n)] = f
+    if cls_info is not None:
+        chain = repo.mro(cls_info) if repo is not None else [cls_info]
+        for c in reversed(chain):
+            for n, f in c.methods.items():
+                out[("m", n)] = f
+    if fn is not None:
+        for n in ast.walk(fn):
+            if isinstance(n, (ast.FunctionDef, ast.AsyncFunctionDef)) and n is not fn:
+                out[("f", n.name)] = n
+    return out
+
+
+def canon(expr, rd=None, at=None, params=(), helpers=None):
     """Canonical text of an expression: single-definition locals are replaced by their defining
-    expression, `self._x` and `self.x` are identified, numpy is spelled np.  Used so that rules which
-    recognise an expression shape are insensitive to renamed temporaries and private/public spelling."""
+    expression, `x._a` and `x.a` are identified, numpy is spelled np, comparisons point one way, and (with a
+    helper table) calls of single-return helpers are replaced by the returned expression.  Used so that rules which
+    recognise an expression shape are insensitive to renamed temporaries, extracted helpers and private/public
+    spelling."""
     import copy as _copy
 
     e = _copy.deepcopy(expr)
     if rd is not None and at is None:
         at = rd.stmt_of(expr)
-    e = _Canon(rd, at, set(params) | {"self", "cls"}).visit(e)
+    c = _Canon(rd, at, set(params) | {"self", "cls"})
+    c.helpers = helpers
+    e = c.visit(e)
     return " ".join(ast.unparse(e).split())
